@@ -1,7 +1,7 @@
 """C02 — curated layout follows the Pretext edits to within three texel widths."""
 import remap_lib as R
 
-EXTRA_ANCHORS = ['assembly/scripts/pretext_to_asm.py']      # files outside the property's anchors whose change escalates the quick budget (T3)
+EXTRA_ANCHORS = ['assembly/scripts/pretext_to_asm.py', 'fasta/index.py']      # files outside the property's anchors whose change escalates the quick budget (T3)
 LEVEL = "proof"
 RULE = ('PretextView-model edit scripts (T floor/ceil, sub-texel scaffolds present/absent, cuts on the texel grid with pieces >= 2 texels, any permutation/orientation/grouping, painted or not, forward and reverse input contigs, contigs 1..3000 bp incl. a small-geometry stream of 1..40 bp contigs) x texel sizes 1..2326.1. Non-trivial = distinct (#pieces, cuts, breaks, joins, #assemblies | error).')
 TRUSTED = ['correspondence harness props/C02.py + remap_lib.py: real BuildAssembly pipeline vs Lean `remap` on the projection `proj_rows`', 'modelled not verified: Python dict/set/sort semantics as in Model/Py.lean; object identity by object ids; PretextView edit-script model (spec side)']
@@ -84,11 +84,47 @@ def run(ctx):
     # history: the same maps remapped AFTER other maps of the same input on ONE IndexedAssembly object (in-process state must not matter)
     hk = ['script', 'script', 'tightscript', 'dupnames']
     R.run_history_cases(ctx, "object-history", [R.make_case(ctx.rng, ctx.rng.choice(hk)) for _ in range(240 if ctx.thorough else 40)], PROJ, oracle, (classify if "classify" in globals() else None))
+    fasta_cold_warm(ctx, 60 if ctx.thorough else 10)
     # the command-line tool end to end on a sample of the same generators: what is proved / compared about the in-memory result holds for the FILES
     # only if the tool finishes whenever the remap does and writes every assembly with exactly its scaffolds (waves 11-12)
     cli_cases = [gen(ctx, kind) for stream, kind, n in streams(ctx) for _ in range(max(3, n // 100))]
     R.run_cli_cases(ctx, "cli-end-to-end", cli_cases, (classify if "classify" in globals() else None),
                     only=["CLI exit", "CLI succeeded", "output file", "does not contain exactly", "unexpected assembly files"])
+
+
+def fasta_cold_warm(ctx, count):
+    """FASTA input (records with N-runs, also at their very start / end): the tool run twice — first indexing the FASTA, then loading the index
+    cache the first run left — must write the same layout both times (the cached assembly is the coordinate system of the remap: wave 13, C02k)"""
+    import itertools, logging
+    import fasta_lib as F
+    from click.testing import CliRunner
+    from tola.assembly.scripts.pretext_to_asm import cli
+    import props.C17 as C17
+    rng, out = ctx.rng, ctx.out
+    with F.Scratch() as sc:
+        for i in range(count):
+            d = sc.path / f"cw{i}"; d.mkdir()
+            C17.make_files(rng, d, "script", dirty=True)
+            snaps = []
+            for k in (1, 2):
+                o = d / f"out{k}"; o.mkdir()
+                logging.disable(logging.NOTSET)
+                try:
+                    res = CliRunner().invoke(cli, ["-a", str(d / "in.fa"), "-p", str(d / "ptx.agp"), "-o", str(o / "xx.1.agp")])
+                finally:
+                    logging.disable(logging.CRITICAL)
+                    for h in list(logging.getLogger().handlers):
+                        try:
+                            h.close()
+                        except Exception:
+                            pass
+                        logging.getLogger().removeHandler(h)
+                snaps.append((res.exit_code, {p.name: p.read_bytes() for p in sorted(o.iterdir()) if p.suffix in (".agp", ".csv", ".yaml")}))
+            inp = {"scenario": "fasta-cold-then-warm", "fasta": (d / "in.fa").read_text()[:1500], "pretext": (d / "ptx.agp").read_text()[:2000]}
+            out.case("fasta-cold-warm", inp, ("coldwarm", snaps[0][0], len(snaps[0][1])))
+            if snaps[0] != snaps[1]:
+                diff = sorted(n for n in set(snaps[0][1]) | set(snaps[1][1]) if snaps[0][1].get(n) != snaps[1][1].get(n))
+                out.oracle_fail("fasta-cold-warm", inp, f"the run that loads the cached index writes a different layout than the run that built it: exit {snaps[0][0]} vs {snaps[1][0]}, files {diff[:4]}")
 
 
 def search(ctx, broken):
